@@ -15,8 +15,8 @@ func checkC11(c *Check) {
 	to := 40 * time.Minute
 	pre := "<<EvBD, EvVer(0), EvList>>"
 	for _, a := range []string{"AlphaArrString", "AlphaArrRid", "AlphaArrRref", "AlphaArrCtxt"} {
-		runRulesGen(c, genCfg{Alphabet: a, MaxLen: n, Lim: defaultLim, Reasons: reasons, Prefix: pre, Filter: "FilterArrays", Label: "arrays/" + a, Timeout: to, Workers: 8})
+		runRulesGen(c, genCfg{Alphabet: a, MaxLen: n, Lim: defaultLim, Reasons: reasons, Prefix: pre, Filter: "FilterArrays", LateArrayReject: true, Label: "arrays/" + a, Timeout: to, Workers: 8})
 	}
-	runRulesGen(c, genCfg{Alphabet: "AlphaArrBin", MaxLen: n, Lim: defaultLim, Reasons: reasons, Prefix: pre, Filter: "FilterArrays", Label: "arrays/binary", Timeout: to, Workers: 8})
-	runRulesGen(c, genCfg{Alphabet: "AlphaArrWhole", MaxLen: 3, Lim: defaultLim, Reasons: reasons, Prefix: pre, Filter: "FilterArrays", Label: "arrays/whole", Timeout: to, Workers: 8})
+	runRulesGen(c, genCfg{Alphabet: "AlphaArrBin", MaxLen: n, Lim: defaultLim, Reasons: reasons, Prefix: pre, Filter: "FilterArrays", LateArrayReject: true, Label: "arrays/binary", Timeout: to, Workers: 8})
+	runRulesGen(c, genCfg{Alphabet: "AlphaArrWhole", MaxLen: 3, Lim: defaultLim, Reasons: reasons, Prefix: pre, Filter: "FilterArrays", LateArrayReject: true, Label: "arrays/whole", Timeout: to, Workers: 8})
 }
